@@ -413,7 +413,19 @@ fn isolate_disk(scratch: &str) -> bool {
             return false;
         }
         let mut ok = true;
-        for (sub, dst) in [("tmp", "/tmp"), ("vartmp", "/var/tmp"), ("shm", "/dev/shm")] {
+        // the real home directory too (what `getpwuid` says, used when HOME is unset)
+        let mut home = String::new();
+        let pw = libc::getpwuid(libc::getuid());
+        if !pw.is_null() && !(*pw).pw_dir.is_null() {
+            home = std::ffi::CStr::from_ptr((*pw).pw_dir).to_string_lossy().into_owned();
+        }
+        let exe = std::env::current_exe().map(|p| p.display().to_string()).unwrap_or_default();
+        let mut targets = vec![("tmp", "/tmp".to_string()), ("vartmp", "/var/tmp".to_string()), ("shm", "/dev/shm".to_string())];
+        if home.len() > 1 && !scratch.starts_with(&home) && !exe.starts_with(&home) {
+            targets.push(("home", home));
+        }
+        for (sub, dst) in targets {
+            let dst = dst.as_str();
             let src = format!("{scratch}/{sub}");
             let _ = std::fs::create_dir_all(&src);
             if !std::path::Path::new(dst).is_dir() {
